@@ -51,6 +51,9 @@ class _Writer:
         fs.writes.append(path)
 
     def write(self, data):
+        if isinstance(data, str) or data is None or isinstance(data, (int, float, list, dict, tuple)):
+            # a binary file refuses anything that is not bytes-like (the file is already truncated by then)
+            raise TypeError("a bytes-like object is required, not '%s'" % type(data).__name__)
         self.parts.append(data)
         self._flush()
         return len(data)
